@@ -15,7 +15,7 @@
         open spec fn dec_stop(rest: Seq<u8>) -> bool { rest.len() == 0 || (match <zvt_builder::encoding::Default as zvt_builder::encoding::Encoding<zvt_builder::Tag>>::spec_dec(rest) { None => true, Some((t, _)) => t.0 != 170u16 && t.0 != 12u16 }) }
         /// the tag loop is specified by totality and frame clauses only
         open spec fn functional() -> bool { false }
-        //@ fn exp:zvt | impl zvt_builder::encoding::Encoding<SetTimeAndDate> for zvt_builder::encoding::Default | encode | mod=packets props=C03
+        //@ fn exp:zvt | impl zvt_builder::encoding::Encoding<SetTimeAndDate> for zvt_builder::encoding::Default | encode | mod=packets props=C03,~C01
         //@ end
         //@ fn exp:zvt | impl zvt_builder::encoding::Encoding<SetTimeAndDate> for zvt_builder::encoding::Default | decode | mod=packets all-loops props=C02,C14
         //@ loop 0
@@ -93,7 +93,7 @@
         open spec fn dec_stop(rest: Seq<u8>) -> bool { rest.len() == 0 || (match <zvt_builder::encoding::Default as zvt_builder::encoding::Encoding<zvt_builder::Tag>>::spec_dec(rest) { None => true, Some((t, _)) => true }) }
         /// the tag loop is specified by totality and frame clauses only
         open spec fn functional() -> bool { false }
-        //@ fn exp:zvt | impl zvt_builder::encoding::Encoding<NumAndTotal> for zvt_builder::encoding::Default | encode | mod=packets props=C03
+        //@ fn exp:zvt | impl zvt_builder::encoding::Encoding<NumAndTotal> for zvt_builder::encoding::Default | encode | mod=packets props=C03,~C01
         //@ end
         //@ fn exp:zvt | impl zvt_builder::encoding::Encoding<NumAndTotal> for zvt_builder::encoding::Default | decode | mod=packets all-loops props=C02,C14
         //@ loop 0
@@ -152,7 +152,7 @@
         open spec fn dec_stop(rest: Seq<u8>) -> bool { rest.len() == 0 || (match <zvt_builder::encoding::Default as zvt_builder::encoding::Encoding<zvt_builder::Tag>>::spec_dec(rest) { None => true, Some((t, _)) => true }) }
         /// the tag loop is specified by totality and frame clauses only
         open spec fn functional() -> bool { false }
-        //@ fn exp:zvt | impl zvt_builder::encoding::Encoding<SingleAmounts> for zvt_builder::encoding::Default | encode | mod=packets props=C03
+        //@ fn exp:zvt | impl zvt_builder::encoding::Encoding<SingleAmounts> for zvt_builder::encoding::Default | encode | mod=packets props=C03,~C01
         //@ end
         //@ fn exp:zvt | impl zvt_builder::encoding::Encoding<SingleAmounts> for zvt_builder::encoding::Default | decode | mod=packets all-loops props=C02,C14
         //@ loop 0
@@ -211,7 +211,7 @@
         open spec fn dec_stop(rest: Seq<u8>) -> bool { rest.len() == 0 || (match <zvt_builder::encoding::Default as zvt_builder::encoding::Encoding<zvt_builder::Tag>>::spec_dec(rest) { None => true, Some((t, _)) => t.0 != 4u16 && t.0 != 11u16 && t.0 != 12u16 && t.0 != 13u16 && t.0 != 14u16 && t.0 != 23u16 && t.0 != 25u16 && t.0 != 34u16 && t.0 != 35u16 && t.0 != 39u16 && t.0 != 41u16 && t.0 != 42u16 && t.0 != 59u16 && t.0 != 60u16 && t.0 != 96u16 && t.0 != 135u16 && t.0 != 73u16 && t.0 != 138u16 && t.0 != 139u16 && t.0 != 140u16 && t.0 != 6u16 }) }
         /// the tag loop is specified by totality and frame clauses only
         open spec fn functional() -> bool { false }
-        //@ fn exp:zvt | impl zvt_builder::encoding::Encoding<StatusInformation> for zvt_builder::encoding::Default | encode | mod=packets props=C03
+        //@ fn exp:zvt | impl zvt_builder::encoding::Encoding<StatusInformation> for zvt_builder::encoding::Default | encode | mod=packets props=C03,~C01
         //@ end
         //@ fn exp:zvt | impl zvt_builder::encoding::Encoding<StatusInformation> for zvt_builder::encoding::Default | decode | mod=packets all-loops props=C02,C14
         //@ loop 0
@@ -403,7 +403,7 @@
         open spec fn dec_stop(rest: Seq<u8>) -> bool { rest.len() == 0 || (match <zvt_builder::encoding::Default as zvt_builder::encoding::Encoding<zvt_builder::Tag>>::spec_dec(rest) { None => true, Some((t, _)) => true }) }
         /// the tag loop is specified by totality and frame clauses only
         open spec fn functional() -> bool { false }
-        //@ fn exp:zvt | impl zvt_builder::encoding::Encoding<IntermediateStatusInformation> for zvt_builder::encoding::Default | encode | mod=packets props=C03
+        //@ fn exp:zvt | impl zvt_builder::encoding::Encoding<IntermediateStatusInformation> for zvt_builder::encoding::Default | encode | mod=packets props=C03,~C01
         //@ end
         //@ fn exp:zvt | impl zvt_builder::encoding::Encoding<IntermediateStatusInformation> for zvt_builder::encoding::Default | decode | mod=packets all-loops props=C02,C14
         //@ loop 0
@@ -469,7 +469,7 @@
         open spec fn dec_stop(rest: Seq<u8>) -> bool { rest.len() == 0 || (match <zvt_builder::encoding::Default as zvt_builder::encoding::Encoding<zvt_builder::Tag>>::spec_dec(rest) { None => true, Some((t, _)) => t.0 != 3u16 && t.0 != 6u16 }) }
         /// the tag loop is specified by totality and frame clauses only
         open spec fn functional() -> bool { false }
-        //@ fn exp:zvt | impl zvt_builder::encoding::Encoding<StatusEnquiry> for zvt_builder::encoding::Default | encode | mod=packets props=C03
+        //@ fn exp:zvt | impl zvt_builder::encoding::Encoding<StatusEnquiry> for zvt_builder::encoding::Default | encode | mod=packets props=C03,~C01
         //@ end
         //@ fn exp:zvt | impl zvt_builder::encoding::Encoding<StatusEnquiry> for zvt_builder::encoding::Default | decode | mod=packets all-loops props=C02,C14
         //@ loop 0
@@ -547,7 +547,7 @@
         open spec fn dec_stop(rest: Seq<u8>) -> bool { rest.len() == 0 || (match <zvt_builder::encoding::Default as zvt_builder::encoding::Encoding<zvt_builder::Tag>>::spec_dec(rest) { None => true, Some((t, _)) => t.0 != 6u16 }) }
         /// the tag loop is specified by totality and frame clauses only
         open spec fn functional() -> bool { false }
-        //@ fn exp:zvt | impl zvt_builder::encoding::Encoding<Registration> for zvt_builder::encoding::Default | encode | mod=packets props=C03
+        //@ fn exp:zvt | impl zvt_builder::encoding::Encoding<Registration> for zvt_builder::encoding::Default | encode | mod=packets props=C03,~C01
         //@ end
         //@ fn exp:zvt | impl zvt_builder::encoding::Encoding<Registration> for zvt_builder::encoding::Default | decode | mod=packets all-loops props=C02,C14
         //@ loop 0
@@ -619,7 +619,7 @@
         open spec fn dec_stop(rest: Seq<u8>) -> bool { rest.len() == 0 || (match <zvt_builder::encoding::Default as zvt_builder::encoding::Encoding<zvt_builder::Tag>>::spec_dec(rest) { None => true, Some((t, _)) => t.0 != 39u16 && t.0 != 25u16 && t.0 != 41u16 && t.0 != 73u16 }) }
         /// the tag loop is specified by totality and frame clauses only
         open spec fn functional() -> bool { false }
-        //@ fn exp:zvt | impl zvt_builder::encoding::Encoding<CompletionData> for zvt_builder::encoding::Default | encode | mod=packets props=C03
+        //@ fn exp:zvt | impl zvt_builder::encoding::Encoding<CompletionData> for zvt_builder::encoding::Default | encode | mod=packets props=C03,~C01
         //@ end
         //@ fn exp:zvt | impl zvt_builder::encoding::Encoding<CompletionData> for zvt_builder::encoding::Default | decode | mod=packets all-loops props=C02,C14
         //@ loop 0
@@ -709,7 +709,7 @@
         open spec fn dec_stop(rest: Seq<u8>) -> bool { rest.len() == 0 || (match <zvt_builder::encoding::Default as zvt_builder::encoding::Encoding<zvt_builder::Tag>>::spec_dec(rest) { None => true, Some((t, _)) => t.0 != 6u16 }) }
         /// the tag loop is specified by totality and frame clauses only
         open spec fn functional() -> bool { false }
-        //@ fn exp:zvt | impl zvt_builder::encoding::Encoding<ReceiptPrintoutCompletion> for zvt_builder::encoding::Default | encode | mod=packets props=C03
+        //@ fn exp:zvt | impl zvt_builder::encoding::Encoding<ReceiptPrintoutCompletion> for zvt_builder::encoding::Default | encode | mod=packets props=C03,~C01
         //@ end
         //@ fn exp:zvt | impl zvt_builder::encoding::Encoding<ReceiptPrintoutCompletion> for zvt_builder::encoding::Default | decode | mod=packets all-loops props=C02,C14
         //@ loop 0
@@ -781,7 +781,7 @@
         open spec fn dec_stop(rest: Seq<u8>) -> bool { rest.len() == 0 || (match <zvt_builder::encoding::Default as zvt_builder::encoding::Encoding<zvt_builder::Tag>>::spec_dec(rest) { None => true, Some((t, _)) => true }) }
         /// the tag loop is specified by totality and frame clauses only
         open spec fn functional() -> bool { false }
-        //@ fn exp:zvt | impl zvt_builder::encoding::Encoding<ResetTerminal> for zvt_builder::encoding::Default | encode | mod=packets props=C03
+        //@ fn exp:zvt | impl zvt_builder::encoding::Encoding<ResetTerminal> for zvt_builder::encoding::Default | encode | mod=packets props=C03,~C01
         //@ end
         //@ fn exp:zvt | impl zvt_builder::encoding::Encoding<ResetTerminal> for zvt_builder::encoding::Default | decode | mod=packets all-loops props=C02,C14
         //@ loop 0
@@ -847,7 +847,7 @@
         open spec fn dec_stop(rest: Seq<u8>) -> bool { rest.len() == 0 || (match <zvt_builder::encoding::Default as zvt_builder::encoding::Encoding<zvt_builder::Tag>>::spec_dec(rest) { None => true, Some((t, _)) => true }) }
         /// the tag loop is specified by totality and frame clauses only
         open spec fn functional() -> bool { false }
-        //@ fn exp:zvt | impl zvt_builder::encoding::Encoding<PrintSystemConfiguration> for zvt_builder::encoding::Default | encode | mod=packets props=C03
+        //@ fn exp:zvt | impl zvt_builder::encoding::Encoding<PrintSystemConfiguration> for zvt_builder::encoding::Default | encode | mod=packets props=C03,~C01
         //@ end
         //@ fn exp:zvt | impl zvt_builder::encoding::Encoding<PrintSystemConfiguration> for zvt_builder::encoding::Default | decode | mod=packets all-loops props=C02,C14
         //@ loop 0
@@ -913,7 +913,7 @@
         open spec fn dec_stop(rest: Seq<u8>) -> bool { rest.len() == 0 || (match <zvt_builder::encoding::Default as zvt_builder::encoding::Encoding<zvt_builder::Tag>>::spec_dec(rest) { None => true, Some((t, _)) => t.0 != 41u16 }) }
         /// the tag loop is specified by totality and frame clauses only
         open spec fn functional() -> bool { false }
-        //@ fn exp:zvt | impl zvt_builder::encoding::Encoding<SetTerminalId> for zvt_builder::encoding::Default | encode | mod=packets props=C03
+        //@ fn exp:zvt | impl zvt_builder::encoding::Encoding<SetTerminalId> for zvt_builder::encoding::Default | encode | mod=packets props=C03,~C01
         //@ end
         //@ fn exp:zvt | impl zvt_builder::encoding::Encoding<SetTerminalId> for zvt_builder::encoding::Default | decode | mod=packets all-loops props=C02,C14
         //@ loop 0
@@ -985,7 +985,7 @@
         open spec fn dec_stop(rest: Seq<u8>) -> bool { rest.len() == 0 || (match <zvt_builder::encoding::Default as zvt_builder::encoding::Encoding<zvt_builder::Tag>>::spec_dec(rest) { None => true, Some((t, _)) => true }) }
         /// the tag loop is specified by totality and frame clauses only
         open spec fn functional() -> bool { false }
-        //@ fn exp:zvt | impl zvt_builder::encoding::Encoding<Abort> for zvt_builder::encoding::Default | encode | mod=packets props=C03
+        //@ fn exp:zvt | impl zvt_builder::encoding::Encoding<Abort> for zvt_builder::encoding::Default | encode | mod=packets props=C03,~C01
         //@ end
         //@ fn exp:zvt | impl zvt_builder::encoding::Encoding<Abort> for zvt_builder::encoding::Default | decode | mod=packets all-loops props=C02,C14
         //@ loop 0
@@ -1051,7 +1051,7 @@
         open spec fn dec_stop(rest: Seq<u8>) -> bool { rest.len() == 0 || (match <zvt_builder::encoding::Default as zvt_builder::encoding::Encoding<zvt_builder::Tag>>::spec_dec(rest) { None => true, Some((t, _)) => t.0 != 6u16 }) }
         /// the tag loop is specified by totality and frame clauses only
         open spec fn functional() -> bool { false }
-        //@ fn exp:zvt | impl zvt_builder::encoding::Encoding<ReservationAbort> for zvt_builder::encoding::Default | encode | mod=packets props=C03
+        //@ fn exp:zvt | impl zvt_builder::encoding::Encoding<ReservationAbort> for zvt_builder::encoding::Default | encode | mod=packets props=C03,~C01
         //@ end
         //@ fn exp:zvt | impl zvt_builder::encoding::Encoding<ReservationAbort> for zvt_builder::encoding::Default | decode | mod=packets all-loops props=C02,C14
         //@ loop 0
@@ -1123,7 +1123,7 @@
         open spec fn dec_stop(rest: Seq<u8>) -> bool { rest.len() == 0 || (match <zvt_builder::encoding::Default as zvt_builder::encoding::Encoding<zvt_builder::Tag>>::spec_dec(rest) { None => true, Some((t, _)) => t.0 != 135u16 }) }
         /// the tag loop is specified by totality and frame clauses only
         open spec fn functional() -> bool { false }
-        //@ fn exp:zvt | impl zvt_builder::encoding::Encoding<PartialReversalAbort> for zvt_builder::encoding::Default | encode | mod=packets props=C03
+        //@ fn exp:zvt | impl zvt_builder::encoding::Encoding<PartialReversalAbort> for zvt_builder::encoding::Default | encode | mod=packets props=C03,~C01
         //@ end
         //@ fn exp:zvt | impl zvt_builder::encoding::Encoding<PartialReversalAbort> for zvt_builder::encoding::Default | decode | mod=packets all-loops props=C02,C14
         //@ loop 0
@@ -1195,7 +1195,7 @@
         open spec fn dec_stop(rest: Seq<u8>) -> bool { rest.len() == 0 || (match <zvt_builder::encoding::Default as zvt_builder::encoding::Encoding<zvt_builder::Tag>>::spec_dec(rest) { None => true, Some((t, _)) => t.0 != 4u16 && t.0 != 73u16 && t.0 != 25u16 && t.0 != 14u16 && t.0 != 34u16 && t.0 != 35u16 && t.0 != 1u16 && t.0 != 2u16 && t.0 != 5u16 && t.0 != 60u16 && t.0 != 138u16 && t.0 != 6u16 }) }
         /// the tag loop is specified by totality and frame clauses only
         open spec fn functional() -> bool { false }
-        //@ fn exp:zvt | impl zvt_builder::encoding::Encoding<Authorization> for zvt_builder::encoding::Default | encode | mod=packets props=C03
+        //@ fn exp:zvt | impl zvt_builder::encoding::Encoding<Authorization> for zvt_builder::encoding::Default | encode | mod=packets props=C03,~C01
         //@ end
         //@ fn exp:zvt | impl zvt_builder::encoding::Encoding<Authorization> for zvt_builder::encoding::Default | decode | mod=packets all-loops props=C02,C14
         //@ loop 0
@@ -1333,7 +1333,7 @@
         open spec fn dec_stop(rest: Seq<u8>) -> bool { rest.len() == 0 || (match <zvt_builder::encoding::Default as zvt_builder::encoding::Encoding<zvt_builder::Tag>>::spec_dec(rest) { None => true, Some((t, _)) => t.0 != 4u16 && t.0 != 73u16 && t.0 != 25u16 && t.0 != 14u16 && t.0 != 34u16 && t.0 != 35u16 && t.0 != 1u16 && t.0 != 2u16 && t.0 != 5u16 && t.0 != 11u16 && t.0 != 59u16 && t.0 != 60u16 && t.0 != 138u16 && t.0 != 6u16 }) }
         /// the tag loop is specified by totality and frame clauses only
         open spec fn functional() -> bool { false }
-        //@ fn exp:zvt | impl zvt_builder::encoding::Encoding<Reservation> for zvt_builder::encoding::Default | encode | mod=packets props=C03
+        //@ fn exp:zvt | impl zvt_builder::encoding::Encoding<Reservation> for zvt_builder::encoding::Default | encode | mod=packets props=C03,~C01
         //@ end
         //@ fn exp:zvt | impl zvt_builder::encoding::Encoding<Reservation> for zvt_builder::encoding::Default | decode | mod=packets all-loops props=C02,C14
         //@ loop 0
@@ -1483,7 +1483,7 @@
         open spec fn dec_stop(rest: Seq<u8>) -> bool { rest.len() == 0 || (match <zvt_builder::encoding::Default as zvt_builder::encoding::Encoding<zvt_builder::Tag>>::spec_dec(rest) { None => true, Some((t, _)) => t.0 != 135u16 && t.0 != 4u16 && t.0 != 25u16 && t.0 != 73u16 && t.0 != 6u16 }) }
         /// the tag loop is specified by totality and frame clauses only
         open spec fn functional() -> bool { false }
-        //@ fn exp:zvt | impl zvt_builder::encoding::Encoding<PartialReversal> for zvt_builder::encoding::Default | encode | mod=packets props=C03
+        //@ fn exp:zvt | impl zvt_builder::encoding::Encoding<PartialReversal> for zvt_builder::encoding::Default | encode | mod=packets props=C03,~C01
         //@ end
         //@ fn exp:zvt | impl zvt_builder::encoding::Encoding<PartialReversal> for zvt_builder::encoding::Default | decode | mod=packets all-loops props=C02,C14
         //@ loop 0
@@ -1579,7 +1579,7 @@
         open spec fn dec_stop(rest: Seq<u8>) -> bool { rest.len() == 0 || (match <zvt_builder::encoding::Default as zvt_builder::encoding::Encoding<zvt_builder::Tag>>::spec_dec(rest) { None => true, Some((t, _)) => t.0 != 25u16 && t.0 != 73u16 && t.0 != 135u16 }) }
         /// the tag loop is specified by totality and frame clauses only
         open spec fn functional() -> bool { false }
-        //@ fn exp:zvt | impl zvt_builder::encoding::Encoding<PreAuthReversal> for zvt_builder::encoding::Default | encode | mod=packets props=C03
+        //@ fn exp:zvt | impl zvt_builder::encoding::Encoding<PreAuthReversal> for zvt_builder::encoding::Default | encode | mod=packets props=C03,~C01
         //@ end
         //@ fn exp:zvt | impl zvt_builder::encoding::Encoding<PreAuthReversal> for zvt_builder::encoding::Default | decode | mod=packets all-loops props=C02,C14
         //@ loop 0
@@ -1663,7 +1663,7 @@
         open spec fn dec_stop(rest: Seq<u8>) -> bool { rest.len() == 0 || (match <zvt_builder::encoding::Default as zvt_builder::encoding::Encoding<zvt_builder::Tag>>::spec_dec(rest) { None => true, Some((t, _)) => true }) }
         /// the tag loop is specified by totality and frame clauses only
         open spec fn functional() -> bool { false }
-        //@ fn exp:zvt | impl zvt_builder::encoding::Encoding<EndOfDay> for zvt_builder::encoding::Default | encode | mod=packets props=C03
+        //@ fn exp:zvt | impl zvt_builder::encoding::Encoding<EndOfDay> for zvt_builder::encoding::Default | encode | mod=packets props=C03,~C01
         //@ end
         //@ fn exp:zvt | impl zvt_builder::encoding::Encoding<EndOfDay> for zvt_builder::encoding::Default | decode | mod=packets all-loops props=C02,C14
         //@ loop 0
@@ -1729,7 +1729,7 @@
         open spec fn dec_stop(rest: Seq<u8>) -> bool { rest.len() == 0 || (match <zvt_builder::encoding::Default as zvt_builder::encoding::Encoding<zvt_builder::Tag>>::spec_dec(rest) { None => true, Some((t, _)) => t.0 != 6u16 }) }
         /// the tag loop is specified by totality and frame clauses only
         open spec fn functional() -> bool { false }
-        //@ fn exp:zvt | impl zvt_builder::encoding::Encoding<Diagnosis> for zvt_builder::encoding::Default | encode | mod=packets props=C03
+        //@ fn exp:zvt | impl zvt_builder::encoding::Encoding<Diagnosis> for zvt_builder::encoding::Default | encode | mod=packets props=C03,~C01
         //@ end
         //@ fn exp:zvt | impl zvt_builder::encoding::Encoding<Diagnosis> for zvt_builder::encoding::Default | decode | mod=packets all-loops props=C02,C14
         //@ loop 0
@@ -1801,7 +1801,7 @@
         open spec fn dec_stop(rest: Seq<u8>) -> bool { rest.len() == 0 || (match <zvt_builder::encoding::Default as zvt_builder::encoding::Encoding<zvt_builder::Tag>>::spec_dec(rest) { None => true, Some((t, _)) => true }) }
         /// the tag loop is specified by totality and frame clauses only
         open spec fn functional() -> bool { false }
-        //@ fn exp:zvt | impl zvt_builder::encoding::Encoding<Initialization> for zvt_builder::encoding::Default | encode | mod=packets props=C03
+        //@ fn exp:zvt | impl zvt_builder::encoding::Encoding<Initialization> for zvt_builder::encoding::Default | encode | mod=packets props=C03,~C01
         //@ end
         //@ fn exp:zvt | impl zvt_builder::encoding::Encoding<Initialization> for zvt_builder::encoding::Default | decode | mod=packets all-loops props=C02,C14
         //@ loop 0
@@ -1867,7 +1867,7 @@
         open spec fn dec_stop(rest: Seq<u8>) -> bool { rest.len() == 0 || (match <zvt_builder::encoding::Default as zvt_builder::encoding::Encoding<zvt_builder::Tag>>::spec_dec(rest) { None => true, Some((t, _)) => t.0 != 25u16 && t.0 != 252u16 && t.0 != 6u16 }) }
         /// the tag loop is specified by totality and frame clauses only
         open spec fn functional() -> bool { false }
-        //@ fn exp:zvt | impl zvt_builder::encoding::Encoding<ReadCard> for zvt_builder::encoding::Default | encode | mod=packets props=C03
+        //@ fn exp:zvt | impl zvt_builder::encoding::Encoding<ReadCard> for zvt_builder::encoding::Default | encode | mod=packets props=C03,~C01
         //@ end
         //@ fn exp:zvt | impl zvt_builder::encoding::Encoding<ReadCard> for zvt_builder::encoding::Default | decode | mod=packets all-loops props=C02,C14
         //@ loop 0
@@ -1951,7 +1951,7 @@
         open spec fn dec_stop(rest: Seq<u8>) -> bool { rest.len() == 0 || (match <zvt_builder::encoding::Default as zvt_builder::encoding::Encoding<zvt_builder::Tag>>::spec_dec(rest) { None => true, Some((t, _)) => true }) }
         /// the tag loop is specified by totality and frame clauses only
         open spec fn functional() -> bool { false }
-        //@ fn exp:zvt | impl zvt_builder::encoding::Encoding<PrintLine> for zvt_builder::encoding::Default | encode | mod=packets props=C03
+        //@ fn exp:zvt | impl zvt_builder::encoding::Encoding<PrintLine> for zvt_builder::encoding::Default | encode | mod=packets props=C03,~C01
         //@ end
         //@ fn exp:zvt | impl zvt_builder::encoding::Encoding<PrintLine> for zvt_builder::encoding::Default | decode | mod=packets all-loops props=C02,C14
         //@ loop 0
@@ -2017,7 +2017,7 @@
         open spec fn dec_stop(rest: Seq<u8>) -> bool { rest.len() == 0 || (match <zvt_builder::encoding::Default as zvt_builder::encoding::Encoding<zvt_builder::Tag>>::spec_dec(rest) { None => true, Some((t, _)) => t.0 != 6u16 }) }
         /// the tag loop is specified by totality and frame clauses only
         open spec fn functional() -> bool { false }
-        //@ fn exp:zvt | impl zvt_builder::encoding::Encoding<PrintTextBlock> for zvt_builder::encoding::Default | encode | mod=packets props=C03
+        //@ fn exp:zvt | impl zvt_builder::encoding::Encoding<PrintTextBlock> for zvt_builder::encoding::Default | encode | mod=packets props=C03,~C01
         //@ end
         //@ fn exp:zvt | impl zvt_builder::encoding::Encoding<PrintTextBlock> for zvt_builder::encoding::Default | decode | mod=packets all-loops props=C02,C14
         //@ loop 0
@@ -2089,7 +2089,7 @@
         open spec fn dec_stop(rest: Seq<u8>) -> bool { rest.len() == 0 || (match <zvt_builder::encoding::Default as zvt_builder::encoding::Encoding<zvt_builder::Tag>>::spec_dec(rest) { None => true, Some((t, _)) => true }) }
         /// the tag loop is specified by totality and frame clauses only
         open spec fn functional() -> bool { false }
-        //@ fn exp:zvt | impl zvt_builder::encoding::Encoding<SelectLanguage> for zvt_builder::encoding::Default | encode | mod=packets props=C03
+        //@ fn exp:zvt | impl zvt_builder::encoding::Encoding<SelectLanguage> for zvt_builder::encoding::Default | encode | mod=packets props=C03,~C01
         //@ end
         //@ fn exp:zvt | impl zvt_builder::encoding::Encoding<SelectLanguage> for zvt_builder::encoding::Default | decode | mod=packets all-loops props=C02,C14
         //@ loop 0
@@ -2155,7 +2155,7 @@
         open spec fn dec_stop(rest: Seq<u8>) -> bool { rest.len() == 0 || (match <zvt_builder::encoding::Default as zvt_builder::encoding::Encoding<zvt_builder::Tag>>::spec_dec(rest) { None => true, Some((t, _)) => true }) }
         /// the tag loop is specified by totality and frame clauses only
         open spec fn functional() -> bool { false }
-        //@ fn exp:zvt | impl zvt_builder::encoding::Encoding<Ack> for zvt_builder::encoding::Default | encode | mod=packets props=C03
+        //@ fn exp:zvt | impl zvt_builder::encoding::Encoding<Ack> for zvt_builder::encoding::Default | encode | mod=packets props=C03,~C01
         //@ end
         //@ fn exp:zvt | impl zvt_builder::encoding::Encoding<Ack> for zvt_builder::encoding::Default | decode | mod=packets all-loops props=C02,C14
         //@ loop 0
